@@ -43,6 +43,13 @@ func ErrorIsRetryable(err error) bool {
 			return true
 		}
 	}
+	// a remote node reports its own retryable failures as FailedPrecondition (see rpc.WrapError).
+	// Those that are not one of our sentinel errors (e.g. a deadline the remote node hit while
+	// forwarding the request) have no local counterpart, but they were retryable at the origin.
+	var twerr twirp.Error
+	if errors.As(err, &twerr) && twerr.Code() == twirp.FailedPrecondition {
+		return true
+	}
 	return false
 }
 
